@@ -53,6 +53,7 @@ type task struct {
 	mutex   bool
 	epoch   uint64 // unlock epoch at park time (mutex waiters)
 	forever bool
+	group   string
 }
 
 type Sim struct {
@@ -84,6 +85,8 @@ type Sim struct {
 	SchedHash    uint64 // hash of the context-switch sequence only
 	start        time.Time
 
+	groups    map[uint64]string // goroutine id -> node/group (inherited from the creating goroutine)
+	deadGroup map[string]bool
 	yieldHook func(label string) // optional observer (probes)
 	panicked  string
 }
@@ -96,7 +99,8 @@ func Current() *Sim { return cur }
 // New creates the simulation for one run. replay == nil: generate mode from
 // seed. replay != nil: every decision is read from it (0 once exhausted).
 func New(seed uint64, replay []int32, pol Policy, tracing bool) *Sim {
-	s := &Sim{rng: rand.New(rand.NewPCG(seed, 0x5eed5eed5eed)), pol: pol, tracing: tracing, hash: 14695981039346656037, SchedHash: 14695981039346656037}
+	s := &Sim{rng: rand.New(rand.NewPCG(seed, 0x5eed5eed5eed)), pol: pol, tracing: tracing, hash: 14695981039346656037, SchedHash: 14695981039346656037,
+		groups: map[uint64]string{}, deadGroup: map[string]bool{}}
 	if replay != nil {
 		s.replay = replay
 		s.replayMode = true
@@ -234,17 +238,114 @@ func park(label string, mutex bool) {
 	if s.yieldHook != nil {
 		s.yieldHook(label)
 	}
-	if !mutex && g == s.lastGid && s.budget > 0 {
+	if !mutex && g == s.lastGid && s.budget > 0 && !(s.groups[g] != "" && s.deadGroup[s.groups[g]]) {
 		s.budget--
 		s.InlineYields++
 		s.mu.Unlock()
 		return
 	}
-	t := &task{gid: g, label: label, wake: make(chan struct{}), mutex: mutex, epoch: s.unlockEpoch}
+	grp, known := s.groups[g]
+	if !known {
+		// first scheduling point of this goroutine: inherit the group of the
+		// goroutine that created it ("created by ... in goroutine N")
+		s.mu.Unlock()
+		parent := creatorGid()
+		s.mu.Lock()
+		grp = s.groups[parent]
+		s.groups[g] = grp
+	}
+	t := &task{gid: g, label: label, wake: make(chan struct{}), mutex: mutex, epoch: s.unlockEpoch, group: grp}
 	s.parked = append(s.parked, t)
 	s.mu.Unlock()
 	<-t.wake
 }
+
+// creatorGid parses the calling goroutine's stack for its creator.
+func creatorGid() uint64 {
+	for size := 16 << 10; size <= 1<<20; size *= 4 {
+		buf := make([]byte, size)
+		n := runtime.Stack(buf, false)
+		if n == size {
+			continue
+		}
+		st := string(buf[:n])
+		i := strings.LastIndex(st, " in goroutine ")
+		if i < 0 {
+			return 0
+		}
+		var id uint64
+		for _, c := range st[i+len(" in goroutine "):] {
+			if c < '0' || c > '9' {
+				break
+			}
+			id = id*10 + uint64(c-'0')
+		}
+		return id
+	}
+	return 0
+}
+
+// Start is the first statement the rewriter puts into every goroutine the
+// simulated packages spawn: it fixes the goroutine's group to the one its
+// creator had *at the go statement* and parks.
+func Start(label string, grp string) {
+	s := active()
+	if s == nil {
+		return
+	}
+	g := goid()
+	s.mu.Lock()
+	s.groups[g] = grp
+	s.mu.Unlock()
+	park(label, false)
+}
+
+// WrapE wraps the function literal handed to an errgroup-style Go method.
+func WrapE[T any](label string, f func() T) func() T {
+	grp := Group()
+	return func() (res T) {
+		defer Recover(label)
+		Start(label, grp)
+		return f()
+	}
+}
+
+// SetGroup assigns the calling goroutine (and every goroutine it creates from
+// now on, transitively) to a node/group. A killed group's goroutines are never
+// scheduled again - the simulator's model of a process crash.
+func SetGroup(name string) {
+	s := active()
+	if s == nil {
+		return
+	}
+	g := goid()
+	s.mu.Lock()
+	s.groups[g] = name
+	s.mu.Unlock()
+}
+
+// Group returns the calling goroutine's group.
+func Group() string {
+	s := active()
+	if s == nil {
+		return ""
+	}
+	g := goid()
+	s.mu.Lock()
+	defer s.mu.Unlock()
+	return s.groups[g]
+}
+
+// KillGroup freezes every goroutine of the group at its current or next
+// scheduling point, for the rest of the run.
+func (s *Sim) KillGroup(name string) {
+	s.mu.Lock()
+	s.deadGroup[name] = true
+	s.logLocked("kill " + name)
+	s.mu.Unlock()
+}
+
+func (s *Sim) GroupDead(name string) bool { s.mu.Lock(); defer s.mu.Unlock(); return s.deadGroup[name] }
 
 // Yield is a scheduling point.
 func Yield(label string) { park(label, false) }
@@ -263,9 +364,82 @@ func ParkForever(label string) {
 	select {}
 }
 
+// Send replaces `ch <- v`: a scheduling point before the hand-off. Every wake-up
+// from a blocking operation is followed by an immediate park (here and in Recv,
+// Select, Waited, Slept, Callback), so that at most one goroutine does real
+// work between two scheduling decisions - otherwise a sender and the receiver
+// it woke would both be runnable and their order would be the Go runtime's
+// (run queue, sysmon pre-emption under load), which does not replay.
 func Send[T any](label string, ch chan<- T, v T) {
+	if active() == nil {
+		ch <- v
+		return
+	}
 	park(label, false)
+	select {
+	case ch <- v:
+		return
+	default:
+	}
 	ch <- v
+	park(label+"#sent", false)
+}
+
+// Recv replaces a receive expression outside select.
+func Recv[T any](label string, ch <-chan T) T {
+	if active() == nil {
+		return <-ch
+	}
+	select {
+	case v := <-ch:
+		return v
+	default:
+	}
+	v := <-ch
+	park(label+"#woke", false)
+	return v
+}
+
+// Recv2 replaces `v, ok := <-ch`.
+func Recv2[T any](label string, ch <-chan T) (T, bool) {
+	if active() == nil {
+		v, ok := <-ch
+		return v, ok
+	}
+	select {
+	case v, ok := <-ch:
+		return v, ok
+	default:
+	}
+	v, ok := <-ch
+	park(label+"#woke", false)
+	return v, ok
+}
+
+// Waited wraps the result of a blocking X.Wait() in expression position.
+func Waited[T any](label string, v T) T {
+	park(label+"#woke", false)
+	return v
+}
+
+// Callback wraps the function handed to time.AfterFunc: the timer goroutine
+// parks before doing anything, and a panic in it is recorded, not fatal.
+func Callback(label string, f func()) func() {
+	grp := Group() // timer goroutines have no creating goroutine: inherit from the registrant
+	return func() {
+		defer Recover(label)
+		if grp != "" {
+			SetGroup(grp)
+		}
+		park(label, false)
+		f()
+	}
+}
+
+// Sleep replaces time.Sleep.
+func Sleep(label string, d time.Duration) {
+	time.Sleep(d)
+	park(label+"#woke", false)
 }
 
 // Lock replaces x.Lock() / x.RLock(): a scheduling point, then a TryLock loop
@@ -363,7 +537,9 @@ func Select(label string, hasDefault bool, cases ...Case) (int, reflect.Value, b
 	if hasDefault {
 		return -1, reflect.Value{}, false
 	}
-	return reflect.Select(sc)
+	i, rv, ok := reflect.Select(sc)
+	park(label+"#woke", false)
+	return i, rv, ok
 }
 
 // ---------------------------------------------------------------------------
@@ -386,6 +562,9 @@ func (s *Sim) enabledLocked() []*task {
 	var en []*task
 	anyNonMutex := false
 	for _, t := range s.parked {
+		if t.group != "" && s.deadGroup[t.group] {
+			continue
+		}
 		if t.mutex && t.epoch == s.unlockEpoch {
 			continue
 		}
@@ -397,7 +576,11 @@ func (s *Sim) enabledLocked() []*task {
 	if !anyNonMutex && len(en) == 0 {
 		// only stale mutex waiters: let them retry (an un-instrumented Unlock
 		// may have released the lock)
-		en = append(en, s.parked...)
+		for _, t := range s.parked {
+			if t.group == "" || !s.deadGroup[t.group] {
+				en = append(en, t)
+			}
+		}
 	}
 	for i, t := range en {
 		if t.gid == s.lastGid && i != 0 {
@@ -576,7 +759,8 @@ func Recover(label string) {
 	}
 	s.logLocked("PANIC " + label)
 	s.mu.Unlock()
-	select {}
+	// returning ends the goroutine (the deferred call sits in its top frame); its
+	// stack - and whatever the panicking frames referenced - becomes garbage
 }
 
 func panicSite() string {
